@@ -340,6 +340,39 @@ def native_replay(dst, full_name, vals, target_dir, profiles=('dev', 'release'),
     return res, outs
 
 
+def replay_path(path):
+    """./check <ID> --replay <path>: re-run a stored counterexample against the current /repo. exit 1 = still violates"""
+    path = os.path.abspath(path)
+    if not os.path.isdir(path):
+        print('no such replay directory: ' + path)
+        return 2
+    md = os.path.join(path, 'REPLAY.md')
+    if os.path.exists(md):
+        print(open(md).read()[:3000])
+    if os.path.exists(os.path.join(path, 'run.sh')):
+        rc, out = sh(['sh', os.path.join(path, 'run.sh')], cwd=path, timeout=1800)
+        print(out[-3000:])
+        if 'REPLAY-PANIC' in out or 'Undefined Behavior' in out:
+            print('REPLAY: the violation reproduces')
+            return 1
+        if 'REPLAY-OK' in out:
+            print('REPLAY: no longer reproduces')
+            return 0
+        return 2
+    if os.path.exists(os.path.join(path, 'Cargo.toml')):
+        rc, out = sh(['cargo', 'build', '--offline', '--target-dir', os.path.join(WORK, 'target-native')], cwd=path, timeout=1800)
+        print(out[-3000:])
+        if rc != 0:
+            print('REPLAY: the crate still does not build (compiler verdict / proc-macro panic reproduces)')
+            return 1
+        rc, out = sh(['cargo', 'run', '--offline', '--quiet', '--target-dir', os.path.join(WORK, 'target-native')], cwd=path, timeout=1800)
+        print(out[-3000:])
+        print('REPLAY: builds; see the output above (E2 probes print one line per question)')
+        return 0
+    print('REPLAY: nothing executable here; follow REPLAY.md')
+    return 2
+
+
 def load_known(prop):
     p = os.path.join(VERIF, 'known_findings.json')
     if not os.path.exists(p):
